@@ -133,14 +133,27 @@ def check_property(prop, tier="quick", seed=0, update_lock=False):
         d = per_func[ob.func]
         if ob.path not in d or len(ob.pc) > len(d[ob.path].pc):
             d[ob.path] = ob
+    entry_probe = {}
     for func, d in per_func.items():
         picks = sorted(d.values(), key=lambda o: -len(o.pc))[:3 if tier == "quick" else 12]
+        # the probe with the SHORTEST path condition of the function: essentially its preconditions
+        first = min((o for o in obs if o.func == func), key=lambda o: len(o.pc))
+        entry_probe[func] = len(vac_obs)
+        vac_obs.append(Obligation(first.name + "/vacuity-entry", "vacuity", func, first.line, first.pc, z3.BoolVal(False), first.path, "False"))
         for ob in picks:
             vac_obs.append(Obligation(ob.name + "/vacuity", "vacuity", ob.func, ob.line, ob.pc, z3.BoolVal(False), ob.path, "False"))
     vac_res = discharge(vac_obs, timeout_ms=2000 if tier == "quick" else 10000, second=False, want_model=False)
-    vacuity = {"probed": len(vac_obs), "contradictory": [o.name + " path " + o.path for o, r in zip(vac_obs, vac_res) if r["verdict"] == "proved"]}
+    contradictory = [(o, r) for o, r in zip(vac_obs, vac_res) if r["verdict"] == "proved"]
+    # a single contradictory path is an INFEASIBLE path of the real code (e.g. the branch where list.remove(x) raises although
+    # x was drawn from the list): information, not an error.  The contract is vacuous - an error - when the preconditions
+    # themselves are contradictory or when every probed path of a function is.
+    vacuity = {"probed": len(vac_obs), "infeasible_paths": [o.name + " path " + o.path for o, r in contradictory], "contradictory": []}
+    for func, k in entry_probe.items():
+        mine = [(o, r) for o, r in zip(vac_obs, vac_res) if o.func == func]
+        if vac_res[k]["verdict"] == "proved" or (mine and all(r["verdict"] == "proved" for o, r in mine)):
+            vacuity["contradictory"].append(func)
     for name in vacuity["contradictory"]:
-        checker_errors.append("vacuity: contradictory assumptions at %s" % name)
+        checker_errors.append("vacuity: contradictory preconditions / all paths infeasible in %s" % name)
     lock = load_lock()
     entry = lock.get(prop, {})
     if isinstance(entry, list):
